@@ -17,36 +17,42 @@ package timing
 //@   ensures int(result) * int(f) <= PS && PS < (int(result) + 1) * int(f)
 //@   label C42.period.eq
 //@   ensures result == period(f)
+//@   assigns nothing
 
 //@ fn (Freq).Cycle
 //@   property C42
 //@   requires validFreq(f)
 //@   label C42.cycle.floor
 //@   ensures int(result) * period(f) <= int(time) && int(time) < (int(result) + 1) * period(f)
+//@   assigns nothing
 
 //@ fn (Freq).ThisTick
 //@   property C42 C12
 //@   requires validFreq(f)
 //@   label C42.thistick.least
 //@   ensures forall q nat :: q * period(f) >= int(now) && (q == 0 || (q - 1) * period(f) < int(now)) && q * period(f) < TWO64 ==> int(result) == q * period(f)
+//@   assigns nothing
 
 //@ fn (Freq).NextTick
 //@   property C42 C12
 //@   requires validFreq(f)
 //@   label C42.nexttick.least
 //@   ensures forall q nat :: q * period(f) > int(now) && (q - 1) * period(f) <= int(now) && q * period(f) < TWO64 ==> int(result) == q * period(f)
+//@   assigns nothing
 
 //@ fn (Freq).NCyclesLater
 //@   property C42
 //@   requires validFreq(f)
 //@   label C42.ncycles.exact
 //@   ensures forall q nat :: n >= 0 && q * period(f) >= int(now) && (q == 0 || (q - 1) * period(f) < int(now)) && (q + int(n)) * period(f) < TWO64 ==> int(result) == (q + int(n)) * period(f)
+//@   assigns nothing
 
 //@ fn (Freq).NoEarlierThan
 //@   property C42
 //@   requires validFreq(f)
 //@   label C42.noearlier.least
 //@   ensures forall q nat :: q * period(f) >= int(t) && (q == 0 || (q - 1) * period(f) < int(t)) && q * period(f) < TWO64 ==> int(result) == q * period(f)
+//@   assigns nothing
 
 // ---- C41: generated IDs are unique; the sequential counter is reproducible ----
 
